@@ -1,22 +1,18 @@
 typedef unsigned long u64;
-u64 ga = 593; u64 gb = 314; u64 gc_[4] = {1,2,3,234}; static u64 sa = 454; static u64 sb[3] = {521,5,6};
+u64 ga = 250; u64 gb = 914; u64 gc_[4] = {1,2,3,738}; static u64 sa = 684; static u64 sb[3] = {637,5,6};
 __thread u64 tva = 3; __thread u64 tvb = 4;
 extern u64 ext_a, ext_b; extern u64 ext_f(u64); extern u64 ext_g(u64);
-__attribute__((noinline)) u64 fn0(u64 x) { return x * 537 + ga + sb[0]; }
-__attribute__((noinline)) static u64 sf0(u64 x) { return (x ^ 593) + sa + gb; }
-__attribute__((noinline)) u64 fn1(u64 x) { return x * 19 + ga + sb[1]; }
-__attribute__((noinline)) static u64 sf1(u64 x) { return (x ^ 314) + sa + gb; }
-__attribute__((noinline)) u64 fn2(u64 x) { return x * 595 + ga + sb[2]; }
-__attribute__((noinline)) static u64 sf2(u64 x) { return (x ^ 234) + sa + gb; }
-__attribute__((noinline)) u64 fn3(u64 x) { return x * 225 + ga + sb[0]; }
-__attribute__((noinline)) static u64 sf3(u64 x) { return (x ^ 454) + sa + gb; }
-__attribute__((noinline)) u64 fn4(u64 x) { return x * 353 + ga + sb[1]; }
-__attribute__((noinline)) static u64 sf4(u64 x) { return (x ^ 521) + sa + gb; }
-__attribute__((noinline)) u64 fn5(u64 x) { return x * 537 + ga + sb[2]; }
-__attribute__((noinline)) static u64 sf5(u64 x) { return (x ^ 537) + sa + gb; }
-u64 (*const ftab[])(u64) = {fn0, fn1, fn2, fn3, fn4, fn5, sf0, sf1, sf2, sf3, sf4, sf5};
+__attribute__((noinline)) u64 fn0(u64 x) { return x * 705 + ga + sb[0]; }
+__attribute__((noinline)) static u64 sf0(u64 x) { return (x ^ 250) + sa + gb; }
+__attribute__((noinline)) u64 fn1(u64 x) { return x * 211 + ga + sb[1]; }
+__attribute__((noinline)) static u64 sf1(u64 x) { return (x ^ 914) + sa + gb; }
+__attribute__((noinline)) u64 fn2(u64 x) { return x * 107 + ga + sb[2]; }
+__attribute__((noinline)) static u64 sf2(u64 x) { return (x ^ 738) + sa + gb; }
+__attribute__((noinline)) u64 fn3(u64 x) { return x * 65 + ga + sb[0]; }
+__attribute__((noinline)) static u64 sf3(u64 x) { return (x ^ 684) + sa + gb; }
+u64 (*const ftab[])(u64) = {fn0, fn1, fn2, fn3, sf0, sf1, sf2, sf3};
 u64 *ptab[] = { &ga, &gb, &gc_[2], &sa, &sb[1], &ext_a };
 __attribute__((constructor)) static void ctor_a(void) { ga += 1; }
 __attribute__((constructor)) static void ctor_b(void) { gb += 2; }
-u64 driver(u64 x) { u64 v = x; v += fn0(v) + sf0(v); v += fn1(v) + sf1(v); v += fn2(v) + sf2(v); v += fn3(v) + sf3(v); v += fn4(v) + sf4(v); v += fn5(v) + sf5(v); v += ftab[x % 12](v) + *ptab[x % 6]; v += ext_f(v) + ext_a + ext_g(v) + ext_b; tva += v; tvb ^= v; v += tva + tvb; return v; }
+u64 driver(u64 x) { u64 v = x; v += fn0(v) + sf0(v); v += fn1(v) + sf1(v); v += fn2(v) + sf2(v); v += fn3(v) + sf3(v); v += ftab[x % 8](v) + *ptab[x % 6]; v += ext_f(v) + ext_a + ext_g(v) + ext_b; tva += v; tvb ^= v; v += tva + tvb; return v; }
 u64 tail4(u64 x) { return fn0(x + 1); }
